@@ -34,7 +34,7 @@ _leaf = st.one_of(
 
 
 def examples(tier):
-    return 8400 if tier == "quick" else 42000
+    return 8400 if tier == "quick" else 140000
 
 
 @st.composite
